@@ -65,6 +65,10 @@ static void *vf_alloc (size_t n)
   VF_TRY (1) VF_TRY (2) VF_TRY (3) VF_TRY (4) VF_TRY (5) VF_TRY (6) VF_TRY (7) VF_TRY (8) VF_TRY (9) VF_TRY (10) VF_TRY (11) VF_TRY (12)
   VF_TRY (13) VF_TRY (14) VF_TRY (15) VF_TRY (16) VF_TRY (17) VF_TRY (18) VF_TRY (19) VF_TRY (20) VF_TRY (21) VF_TRY (22) VF_TRY (23) VF_TRY (24)
 #ifdef VF_ALLOC_BYTES
+  /* byte-granular requests (strings): case split over 1..64 bytes so that the block has a concrete size */
+#define VF_TRYB(k) if (p == 0 && n == (k)) p = malloc (k);
+#define VF_TRYB8(k) VF_TRYB (k) VF_TRYB (k + 1) VF_TRYB (k + 2) VF_TRYB (k + 3) VF_TRYB (k + 4) VF_TRYB (k + 5) VF_TRYB (k + 6) VF_TRYB (k + 7)
+  VF_TRYB8 (1) VF_TRYB8 (9) VF_TRYB8 (17) VF_TRYB8 (25) VF_TRYB8 (33) VF_TRYB8 (41) VF_TRYB8 (49) VF_TRYB8 (57)
   if (p == 0) p = malloc (n);
 #else
   if (p == 0) { __CPROVER_assert (0, "harness bound: allocation request is a multiple of 8 bytes and at most VF_MAXL limbs"); __CPROVER_assume (0); }
@@ -84,6 +88,12 @@ static void *vf_realloc (void *o, size_t os, size_t ns)
       VF_CP (12) VF_CP (13) VF_CP (14) VF_CP (15) VF_CP (16) VF_CP (17) VF_CP (18) VF_CP (19) VF_CP (20) VF_CP (21) VF_CP (22) VF_CP (23)
     }
 #ifdef VF_ALLOC_BYTES
+  else if (os <= 64 || ns <= 64)
+    {
+#define VF_CPB(k) if ((k) < os && (k) < ns) ((unsigned char *) p)[k] = ((unsigned char *) o)[k];
+#define VF_CPB8(k) VF_CPB (k) VF_CPB (k + 1) VF_CPB (k + 2) VF_CPB (k + 3) VF_CPB (k + 4) VF_CPB (k + 5) VF_CPB (k + 6) VF_CPB (k + 7)
+      VF_CPB8 (0) VF_CPB8 (8) VF_CPB8 (16) VF_CPB8 (24) VF_CPB8 (32) VF_CPB8 (40) VF_CPB8 (48) VF_CPB8 (56)
+    }
   else memcpy (p, o, os < ns ? os : ns);
 #endif
   free (o); vf_live = vf_live - 1; return p; }
@@ -95,6 +105,31 @@ static void *vf_realloc (void *o, size_t os, size_t ns)
 #else
 #define VF_MAIN_BEGIN int main (void) { VF_INSTALL_ALLOC ();
 #endif
+#endif
+
+/* glibc's <ctype.h> macros read (*__ctype_b_loc())[c]; CBMC has no body for it, so the "C" locale ASCII table is modelled here
+   (bit values from <ctype.h>).  Native replays use the real libc. */
+#if !defined (REPLAY) && !defined (VF_NO_CTYPE)
+#include <ctype.h>
+static unsigned short vf_ctype_tab[384];
+static const unsigned short *vf_ctype_ptr = vf_ctype_tab + 128;
+static int vf_ctype_init = 0;
+const unsigned short **__ctype_b_loc (void)
+{ if (!vf_ctype_init)
+    { int c; vf_ctype_init = 1;
+      for (c = 0; c < 128; c++)
+        { unsigned short m = 0;
+          if (c >= '0' && c <= '9') m |= _ISdigit | _ISxdigit | _ISalnum | _ISgraph | _ISprint;
+          if (c >= 'A' && c <= 'Z') m |= _ISupper | _ISalpha | _ISalnum | _ISgraph | _ISprint;
+          if (c >= 'a' && c <= 'z') m |= _ISlower | _ISalpha | _ISalnum | _ISgraph | _ISprint;
+          if ((c >= 'A' && c <= 'F') || (c >= 'a' && c <= 'f')) m |= _ISxdigit;
+          if (c == ' ' || (c >= 9 && c <= 13)) m |= _ISspace;
+          if (c == ' ' || c == '\t') m |= _ISblank;
+          if (c == ' ') m |= _ISprint;
+          if (c < 32 || c == 127) m |= _IScntrl;
+          if ((c > 32 && c < 48) || (c > 57 && c < 65) || (c > 90 && c < 97) || (c > 122 && c < 127)) m |= _ISpunct | _ISgraph | _ISprint;
+          vf_ctype_tab[128 + c] = m; } }
+  return &vf_ctype_ptr; }
 #endif
 
 /* fidelity witness (probe P2): the encoding must see the real type sizes */
